@@ -146,6 +146,16 @@ class _Reqs:
                         if src[0] == "agg" and str(src[1]).endswith("Range::Range") and src[2][1] == ("field", ("param", fn.path, 1), "batch_size"):
                             okr = True
                 if not okr:
+                    # a counter loop with the same trip count: `while i < self.batch_size { ..; i += 1 }`, `let mut left = self.batch_size; while left > 0 { left -= 1; .. }`
+                    from lib import counted_trips
+                    bs = ("field", ("param", fn.path, 1), "batch_size")
+                    for l in loops:
+                        ct = counted_trips(W, ev, fn, l)
+                        if ct is not None:
+                            vals = [ct["count"](lambda t, n=n: n if t == bs else (t[1] if isinstance(t, tuple) and t and t[0] == "int" else None)) for n in (1, 7, 255)]
+                            if vals == [1, 7, 255]:
+                                okr = True
+                if not okr:
                     return False, "batch loop is not `0..self.batch_size`"
         pe = P.fns.get(SERVER + "::process_events")
         pev = W.ev(pe.path)
